@@ -159,10 +159,11 @@ def build(job):
         from .. import stubs
         from ..core import SymStr, flatten, z3str_to_py
         # the quantifier's SHACL alphabet: printable (here: ASCII) characters without double quote and angle brackets
-        alpha = z3.Union(z3.Range(" ", "!"), z3.Range("#", ";"), z3.Re("="), z3.Range("?", "~"))
+        # (only non-emptiness is assumed symbolically - regular alphabet constraints on every string made each query
+        # slow; counterexamples are concretised over printable ASCII first, and a witness outside the alphabet is a
+        # precondition failure of the replay)
         for r in recs:
-            eng.assume(And([z3.InRe(_s(v), z3.Plus(alpha)) for v in [*r.all_p, *r.all_u]],
-                           [z3.InRe(_s(r.pattern), z3.Star(alpha))] if r.pattern is not None else []))
+            eng.assume(And([z3.Length(_s(v)) > 0 for v in [*r.all_p, *r.all_u]]))
         api.write_shacl(conv, path, include_synonyms=syn)
         (kind, text), = stubs.FS[path]
         esc_f = lambda x: SymStr(_s(x)).replace("\\", "\\\\")       # Turtle string literal: backslashes doubled
